@@ -23,6 +23,8 @@ PANIC_CALL_RX = [
     (r"^core::num::<impl [ui]\d+>::(pow|abs|div_euclid|rem_euclid|next_power_of_two|ilog2|ilog10|ilog)$", "arith-fn"),
     (r"^core::num::<impl usize>::(pow|next_power_of_two|ilog2|ilog10)$", "arith-fn"),
     (r"^std::time::(Instant|SystemTime)::(add|sub)$", "time-arith"),
+    (r"^std::io::BufRead::consume$", "bufread-consume"),                          # <&[u8]>::consume slices out of range when amt > what fill_buf returned
+    (r"^std::iter::(Iterator|Sum|Product)::(sum|product)$", "iter-arith"),        # integer accumulation inherits overflow checks
     (r"^std::thread::", "thread"),
 ]
 ALLOC_CALL_RX = [
